@@ -109,6 +109,9 @@ def cmd_verify(sid, tier, props):
     meta['what_i_ran'] = ran
     ok = meta['demo_on_clean_tree'] == 'pass' and meta['suite_with_change'] == 'pass' and meta['demo_with_change'] == 'fail'
     meta['confirmed'] = ok
+    dp = os.path.join(SEEDED, 'descriptions.json')
+    if os.path.exists(dp):
+        meta.update(json.load(open(dp)).get(sid, {}))
     json.dump(meta, open(os.path.join(sd, 'meta.json'), 'w'), indent=1)
     shutil.rmtree(d, ignore_errors=True)
     print(f"SEED {sid}: confirmed={ok} clean-demo={meta['demo_on_clean_tree']} suite={meta['suite_with_change']} demo={meta['demo_with_change']}")
@@ -121,6 +124,9 @@ def cmd_table():
         if not os.path.exists(mp):
             continue
         m = json.load(open(mp))
+        dp = os.path.join(SEEDED, 'descriptions.json')
+        if os.path.exists(dp):
+            m.update(json.load(open(dp)).get(sid, {}))
         ch = '; '.join(f"{k}: {v['verdict']}" for k, v in sorted(m.get('checks', {}).items()))
         rows.append(f"| {sid} | {m['property']} | {m.get('summary','')} | {m.get('needs','')} | {ch} |")
     print('| seed | property | change | needs | checks |\n|---|---|---|---|---|')
